@@ -24,6 +24,8 @@ from . import c12_link as LNK
 from ..extract import writeorder as _wo
 from ..extract import mutorder as _mo
 from ..extract import linkorder as _lo
+from ..extract import copyorder as _co
+from ..extract import datasetshape as _ds       # C01's compiler of data_set.py: append_refused_unchanged rests on it
 
 PROP = "C12"
 LEAN_MODULE = "NixModel.Props.C12"
@@ -63,6 +65,14 @@ THEOREMS = [
     "Nix.C12.range_link_data_array_accepted",
     "Nix.C12.late_type_check_counterexample",
     "Nix.C12.entry_check_counterexample",
+    "Nix.C12.guarded_refused_unchanged",
+    "Nix.C12.copy_sound",
+    "Nix.C12.copy_functions_safe",
+    "Nix.C12.copy_refused_unchanged",
+    "Nix.C12.late_name_check_counterexample",
+    "Nix.C12.append_refused_unchanged",
+    "Nix.C12.data_step_refused_unchanged",
+    "Nix.C12.data_history_skips_refused",
 ]
 ASSUMPTIONS = [
     "uuid4 ids are drawn from an abstract fresh supply; no link of the file is named like an id not yet drawn "
@@ -168,6 +178,8 @@ def extract(repo):
     files = dict(_wo.extract(repo))
     files.update(_mo.extract(repo))
     files.update(_lo.extract(repo))
+    files.update(_co.extract(repo))
+    files.update(_ds.extract(repo))
     return files
 
 
